@@ -182,8 +182,10 @@ def checkC14 (c : Ctx) : List String :=
       (c.obs.result != "err" || c.obs.ops.any (fun o => o.kind.mutating) || c.obs.files.any (fun f => c.beforeOf f.1 != some f.2)
         || c.before.files.any (fun f => (c.afterOf f.1).isNone))
     then ["c14-overlong-not-aborted"] else []
+  -- an image shared by two torrent files (duplicate path, known finding D6) has no single declared length
+  let sharedImage := fun (e : TEntry) => c.table.any (fun f => !f.isPad && f.id != e.id && f.fullTarget == e.fullTarget)
   let b := if c.req.resize && !overlong && c.req.faults.isEmpty && c.obs.result == "ok" &&
-      c.table.any (fun e => !e.isPad && match c.beforeOf e.fullTarget, c.afterOf e.fullTarget with
+      c.table.any (fun e => !e.isPad && !sharedImage e && match c.beforeOf e.fullTarget, c.afterOf e.fullTarget with
         | some old, some new => old.length < e.fileLength &&
             (new.length != e.fileLength || (List.range new.length).any (fun k =>
               let x := new[k]!
